@@ -63,8 +63,8 @@ def run(ctx):
     ctx.rule = ("a case is one call (parse of an accepted input, build of a buildable value, sizeof) run on the interpreter and on the compiled instance of the same program; "
                 "non-trivial = the generated source has no linked (interpreter fallback) parser/builder for the whole program and the interpreter accepted")
     progs = [(p, {}) for p in expression_programs(rng)]
-    progs += [(p, rng.choice([{"k": 2}, {"k": 1}])) for p in U.systematic(rng, 0.35 if quick else 1.0)]
-    for i in range(250 if quick else 5000):
+    progs += [(p, rng.choice([{"k": 2}, {"k": 1}])) for p in U.systematic(rng, 0.28 if quick else 1.0)]
+    for i in range(200 if quick else 5000):
         kw = rng.choice([{}, {"k": 2}, {"k": 1, "w": 3}])
         p = gen.program(rng, rng.choice([1, 2, 2, 3]), kw)
         r = rng.random()
